@@ -10,6 +10,8 @@ import Proofs.NoIdleGlobal
 import Proofs.EarliestFit
 import Proofs.DepMile
 import Proofs.NoIdleBack
+import Proofs.OneSet
+import Proofs.TeamSame
 import Properties.C09
 /-! driver command `J {"op":"sched", …}`: run the scheduler model on one scenario projection -/
 namespace SPD
@@ -256,6 +258,18 @@ def runSched (j : Json) : Json :=
       prioLe e t0 t || !(σ.tst t).forward ||
       (e.taskD t).allDeps.any (fun dp => !(e.taskD dp.target).leaf || !pre.contains dp.target ||
         (pre.contains dp.target && !(σ.tst dp.target).scheduled)))))
+  -- C03.team_same_instants: any team (several different allocated resources, no alternative)
+  let anyTeams := (List.range e.tasks.size).filter (fun t =>
+    let d := e.taskD t
+    d.leaf && d.hasAlloc && !d.milestone && decide (d.effort > 0) && decide (d.alloc.length > 1) && d.alt.isEmpty && decide d.alloc.Nodup)
+  let sameFail := anyTeams.filter (fun t =>
+    let sel := (e.taskD t).alloc
+    let slots := ((σ.led.m.toList.filter (fun (ks : Key × Slot) => sel.contains ks.1.1 && (usageOf ks.2.usage t).isSome)).map (fun ks => ks.1.2)).eraseDups
+    !(slots.all (fun i => sel.all (fun r => usageOf (σ.led.get r i).usage t == usageOf (σ.led.get (sel.headD 0) i).usage t))))
+  -- C03.bookings_on_one_candidate_set
+  let oneSetFail := (List.range e.tasks.size).filter (fun t =>
+    let rs := ((σ.led.m.toList.filter (fun (ks : Key × Slot) => (usageOf ks.2.usage t).isSome)).map (fun ks => ks.1.1)).eraseDups
+    !(rs.all (fun r => (e.taskD t).alloc.contains r) || rs.all (fun r => (e.taskD t).alt.contains r)))
   -- containers: scheduled => children scheduled and dates = min / max; all children scheduled => scheduled
   let conts := (List.range e.tasks.size).filter (fun c => !(e.taskD c).leaf && !(e.taskD c).children.isEmpty)
   let contFail := conts.filter (fun c =>
@@ -280,6 +294,8 @@ def runSched (j : Json) : Json :=
                          ("elig", Json.num (JsonNumber.fromNat eligs.length)), ("elig_scheduled", Json.num (JsonNumber.fromNat eligSched.length)),
                          ("effort_exact_fail", Json.num (JsonNumber.fromNat effortFail.length)),
                          ("teams_scheduled", Json.num (JsonNumber.fromNat teams.length)), ("team_exact_fail", Json.num (JsonNumber.fromNat teamFail.length)),
+                         ("one_set_fail", Json.num (JsonNumber.fromNat oneSetFail.length)),
+                         ("teams_any", Json.num (JsonNumber.fromNat anyTeams.length)), ("team_same_fail", Json.num (JsonNumber.fromNat sameFail.length)),
                          ("fwd_scheduled", Json.num (JsonNumber.fromNat fwds.length)), ("dep_edges", Json.num (JsonNumber.fromNat depPairs.length)),
                          ("dep_fail", Json.num (JsonNumber.fromNat depFail.length)),
                          ("dep_edges_all", Json.num (JsonNumber.fromNat depPairsAll.length)), ("dep_all_fail", Json.num (JsonNumber.fromNat depFailAll.length)),
